@@ -1,5 +1,13 @@
 // Contracts and proof harnesses for contracts/interchain-token-service/src/token_handler.rs.
 use super::*;
+// named explicitly: the harness must not depend on which of these the file under verification happens to import
+use soroban_sdk::token::StellarAssetClient;
+use soroban_sdk::token::TokenClient;
+use soroban_sdk::Address;
+use soroban_sdk::Env;
+use crate::error::ContractError;
+use crate::storage_types::TokenIdConfigValue;
+use crate::types::TokenManagerType;
 use soroban_sdk::shim::{self, inst, pers, temp, Wordy, Words};
 
 pub fn symbolic_config() -> TokenIdConfigValue {
